@@ -149,7 +149,9 @@ def asker_never_hangs(run, f, sp):
         if arm_entry is None:
             run.fail("O3.3", "failure-arm:%s:%s" % (variant, fnname), "cannot locate the failing arm", loc=site.loc)
             continue
-        reach = cfg.reachable_from(arm_entry)
+        # path-sensitive: the failure may travel as an `Err(..)` value through a join and be re-tested (inlined helper + `?`)
+        import tagreach
+        reach = tagreach.TagReach(b, cfg).reach(arm_entry)
         ys = [x for x in reach if b.blocks[x].term["k"] == "yield"]
         cyc = [x for x in reach if cfg.in_cycle(x) and x in reach]
         blocking = [x for x in reach if b.blocks[x].term["k"] == "call" and fn_of(b.blocks[x]).get("name") in ("blocking_recv", "blocking_send", "recv", "lock")]
